@@ -6,7 +6,9 @@ MANIFEST = dict(
     text="Coq theorems C02_signed_and_revoked_disjoint (every disclosed number is strictly below every number signed for "
          "broadcast, in either order, over every history with restarts, both build profiles) and C02_frozen_after_signature "
          "(after a holder signature no request discloses a secret that was not disclosed before), from the same invariant as C01 "
-         "plus 'everything obtainable has been disclosed'.  Correspondence and monitor as for C01.",
+         "plus 'everything obtainable has been disclosed'.  Correspondence and monitor as for C01; in the multi-channel "
+         "domain (where the revocation's payment re-check can fail) refused revocations are retried with the same number and "
+         "a signer restored from a copy of the store after every revocation reply must refuse to sign what was revoked.",
     design="§4 C02",
     note=lib.TB + "Same modelling assumptions as C01.  The pre-repair revoke (no policy-revoke-not-closed check) is kept as "
          "C02_old_revoke_refuted.",
@@ -16,3 +18,19 @@ MANIFEST = dict(
 
 def run(res):
     chan_common.run(res, "C02.v", ["C02_signed_and_revoked_disjoint", "C02_frozen_after_signature", "C02_nonvacuous"], "C02")
+    # the revocation's node-wide payment re-check (the model's [pay_ok] input) can only fail with several channels:
+    # the multi-channel domain retries refused revocations with the same number, and after every revocation reply a
+    # signer restored from a copy of the store is asked to sign the commitments whose secrets went out (and all
+    # channels are force-closed after a restart at the end of each history)
+    n = 120 if res.tier == "quick" else 1500
+    pay = lib.run_harness("pay", "run", res.seed, n, res.tier)
+    bad = [c for c in pay["CASE"] if any(v.startswith("C02:") for v in c["monitor_violations"])]
+    for c in bad[:3]:
+        res.violation("C02 fails on the implementation's own answers (multi-channel domain): %s"
+                      % [v for v in c["monitor_violations"] if v.startswith("C02:")][:2],
+                      {"domain": "pay", "seed": res.seed, "channels": c["nch"], "history": c["ops"],
+                       "violations": c["monitor_violations"]})
+    revokes = sum(1 for c in pay["CASE"] for o in c["ops"] if isinstance(o["op"], list) and o["op"][0] == "revoke")
+    res.coverage["multi_channel_histories_with_restart_and_force_close_probe"] = len(pay["CASE"])
+    res.coverage["multi_channel_revocations"] = revokes
+    res.coverage["monitor_failures"] = res.coverage.get("monitor_failures", 0) + len(bad)
